@@ -1431,6 +1431,21 @@ func (client *client) pollInflights() (cont bool, err error) {
 	if err != nil || len(elems) == 0 {
 		return false, err
 	}
+	// The messages were handed out to an earlier connection of the session. This connection may have declared a
+	// smaller Maximum Packet Size: what it cannot take is dropped, like a queued message of that size.
+	// (Before the packet id limiter is locked: the queue may call back into the limiter.)
+	kept := elems[:0]
+	for _, v := range elems {
+		if m, ok := v.MessageWithID.(*queue.Publish); ok && !client.checkMaxPacketSize(m.Message) {
+			if err = client.queueStore.Remove(v.ID()); err != nil {
+				return false, err
+			}
+			client.queueNotifier.notifyDropped(m.Message, queue.ErrDropExceedsMaxPacketSize)
+			continue
+		}
+		kept = append(kept, v)
+	}
+	elems = kept
 	client.pl.lock()
 	defer client.pl.unlock()
 	for _, v := range elems {
